@@ -238,10 +238,17 @@ def prop_pair(a, b):
     return prop_view(' | '.join(sa)), prop_view(' | '.join(sb))
 
 
-def unwild(a, b):
-    """the model prints the value of a call as `?` where it does not determine it (an import bound to a MIR function
-    while the resolver of the same link step went on to load a newer definition of the name: address of the older,
-    possibly the inlined body of the newer one); the implementation's value at that place is not compared"""
+KNOWN_SIG = 'reent-load-redef-inline'
+KNOWN_HITS = []     # (implementation line, model line) on which the known finding reproduced
+
+
+def unwild(a, b, hits=None):
+    """Known finding reent-load-redef-inline (KNOWN_FINDINGS.txt, design/C13.md "Wave 5"): an import whose table entry
+    was REDEFINED with a MIR function by a load the resolver performed inside the same link step, after the import was
+    bound.  The model prints its call value as `?<older>|<newer>` (the value through the address it is bound to | the
+    value of the newer function, whose body process_inlines may have inlined).  Exactly these two values are accepted
+    at exactly these places - the implementation's token is then rewritten to the model's; anything else stays a
+    difference.  `hits` collects the places where the NEWER value was observed (= the finding reproduced)."""
     if '/?' not in b:
         return a
     ta, tb = a.split(' '), b.split(' ')
@@ -249,9 +256,15 @@ def unwild(a, b):
         return a
     out = []
     for x, y in zip(ta, tb):
-        close = '}' if y.endswith('}') else ''
-        if y.rstrip('}').endswith('/?') and '/' in x:
-            x = x.rstrip('}').rsplit('/', 1)[0] + '/?' + ('}' if x.endswith('}') else '')
+        yy = y.rstrip('}')
+        if '/?' in yy and '/' in x:
+            head, alts = yy.rsplit('/?', 1)
+            old, new = alts.split('|')
+            xh, xv = x.rstrip('}').rsplit('/', 1)
+            if xh == head and xv in (old, new):
+                if xv == new and hits is not None:
+                    hits.append(y)
+                x = yy + ('}' if x.endswith('}') else '')
         out.append(x)
     return ' '.join(out)
 
@@ -269,6 +282,11 @@ def correspond(impl, model, hs):
     for h, a, b in zip(hs, o1, o2):
         if not full_eq(a, b):
             bad.append((h, a, b))
+        elif '/?' in b:
+            hits = []
+            unwild(a, b, hits)
+            if hits:
+                KNOWN_HITS.append((h, a, b))
     return bad
 
 
@@ -433,6 +451,10 @@ def run(chk):
     corpus = os.path.join(vlib.VERIF, 'corpus', 'c13.txt')
     if os.path.exists(corpus):
         hs += [l.strip() for l in open(corpus) if l.strip() and not l.startswith('#')]
+    # witnesses of the known finding reent-load-redef-inline: run on every run
+    wfile = os.path.join(vlib.VERIF, 'corpus', 'c13_reent_inline_redef.txt')
+    if os.path.exists(wfile):
+        hs += [l.strip() for l in open(wfile) if l.strip() and not l.startswith('#')]
     ncorpus = len(hs)
     ex = (exhaustive(4 if quick else 6) + exhaustive(3 if quick else 5, EXH_ALPHABET2)
           + exhaustive(4 if quick else 5, EXH_ALPHABET3) + exhaustive(4 if quick else 5, EXH_ALPHABET5)
@@ -484,7 +506,18 @@ def run(chk):
                                 len(EXH_ALPHABET3), 4 if quick else 5))
     for h in hs[ncorpus + len(ex):][:4]:
         chk.sample(h)
+    del KNOWN_HITS[:]
     bad = correspond(impl, model, hs)
+    chk.cov['reent_load_redef_inline'] = dict(histories_where_the_newer_body_was_observed=len(KNOWN_HITS),
+                                              rule='call value of an import whose table entry was redefined with a MIR function by a load '
+                                                   'performed inside the same link step: exactly the older or the newer value is accepted, '
+                                                   'the newer one is the known finding; every other call value is compared exactly')
+    if KNOWN_HITS:
+        h, a, b = min(KNOWN_HITS, key=lambda x: (len(x[0]), x[0]))
+        chk.finding(KNOWN_SIG, dict(history=h, impl=a, model=b, witness_file='corpus/c13_reent_inline_redef.txt',
+                                    histories=len(KNOWN_HITS)),
+                    'C13 an import bound by a link step during which the resolver loaded a module that redefines the name executes the '
+                    'NEWER function body (inlined through import->ref_def) while its address is the older definition: %s gives %s' % (h, a))
     # measured outcome distribution (from the model's side)
     outs = run_parallel(model, hs[ncorpus + len(ex):])[1]
     for o in outs:
